@@ -243,3 +243,73 @@ def identity_rule(an: Analysis, rep, rule: str, entries):
                                 f"identity test between values: {ev[0]}; `is` agrees with `==` only for objects the interpreter caches (ints in -5..256, interned "
                                 f"strings), so the test is wrong for e.g. a line number above 256")
     rep.add(rule, "identity tests examined", True, "code_data/", f"{n} identity test(s) in the closures of {list(entries)}, {n_single} against None / True / False / Ellipsis", nontrivial=False)
+
+
+def _unorderable(an, it, a, depth=0) -> Optional[str]:
+    """Why values denoted by atom `a` cannot be compared with `<` (None when they can, as far as known)."""
+    if depth > 3:
+        return None
+    if a[0] == "const":
+        return "None" if a[1] is None else None
+    if a[0] == "obj":
+        k = it.obj_kind(a)
+        if k in ("dict", "set", "frozenset", "defaultdict"):
+            return k
+        if k.startswith("inst:"):
+            ci = an.prog.cls(k[5:])
+            if "__lt__" not in ci.methods and not ci.dc_args.get("order", False):
+                return ci.name
+        if k in ("tuple", "list"):
+            # a tie on the earlier components falls through to the later ones
+            for (o, f), vals in it.heap.items():
+                if o == a and (f[0] == "k" or f == ("e",)):
+                    for v in vals:
+                        r = _unorderable(an, it, v, depth + 1)
+                        if r:
+                            return f"a tuple holding {r}" if f[0] == "k" and f[1] != 0 else r
+        return None
+    if a[0] == "src":
+        t = an.tg.unfold_rec(it.src_type(a))
+        for x in an.tg.leaves_in(t):
+            if x[0] == "class":
+                ci = an.prog.cls(x[1])
+                if "__lt__" not in ci.methods and not ci.dc_args.get("order", False):
+                    return ci.name
+        # an Optional[...] declaration alone is no evidence: the None case is usually narrowed away before the value gets here
+    return None
+
+
+def ordering_rule(an: Analysis, rep, rule: str, entries):
+    """Key-less ordering (sorted / min / max / .sort() / heapq.merge) is applied to orderable values only: a tuple is compared
+    component by component, so on a tie of the leading components an unorderable later component (a data-class instance, a dict,
+    None) raises TypeError."""
+    rep.rule(rule, "key-less sorted / min / max / .sort() / heapq.merge only over orderable values", 0)
+    n = 0
+    for entry in entries:
+        it, _ = an.interp(entry)
+        for f in an.closure(entry):
+            for c in ast.walk(f.node):
+                if not isinstance(c, ast.Call) or any(k.arg == "key" for k in c.keywords):
+                    continue
+                args = None
+                if isinstance(c.func, ast.Name):
+                    r = an.prog.resolve_global(f.module, c.func.id, f)
+                    ext = r[1] if r and r[0] == "ext" else ("builtins." + c.func.id if r is None else None)
+                    if ext in ("builtins.sorted", "builtins.min", "builtins.max") and len(c.args) == 1:
+                        args = [c.args[0]]
+                    elif ext in ("heapq.merge",):
+                        args = list(c.args)
+                elif isinstance(c.func, ast.Attribute) and c.func.attr == "sort" and not c.args:
+                    args = [c.func.value]
+                if not args:
+                    continue
+                n += 1
+                why = None
+                for a_ in args:
+                    for el in it.elements(it.value_at(a_)):
+                        why = why or _unorderable(an, it, el)
+                rep.add(rule, f"{f.qual}::{norm_src(c)[:50]}", why is None, loc(f.module, c),
+                        "elements are orderable as far as their abstract values show" if why is None else
+                        f"`{norm_src(c)[:70]}` compares its elements with `<` and they can be {why}: when the leading components tie (e.g. two nested code objects on one line) "
+                        f"the comparison reaches a value that does not support ordering and raises TypeError", config=entry)
+    rep.add(rule, "key-less orderings examined", True, "code_data/", f"{n} call(s) in the closures of {list(entries)}", nontrivial=False)
